@@ -1,15 +1,18 @@
 """Run every claimed check's quick tier under several VERIF_SEED values (no evidence written); report non-zero exits.
-usage: tools/seed_sweep.py 1,2,3 [C01,C02]"""
+usage: tools/seed_sweep.py 1,2,3 [C01,C02|all] [thorough:<seconds>]      (third argument: run the thorough tier time-boxed to <seconds>)"""
 import json, os, subprocess, sys
 ROOT = os.path.dirname(os.path.dirname(os.path.abspath(__file__)))
 seeds = [int(x) for x in sys.argv[1].split(",")]
-props = sys.argv[2].split(",") if len(sys.argv) > 2 else [c["property_id"] for c in json.load(open(os.path.join(ROOT, "MANIFEST.json")))["checks"]]
+extra = []
+if len(sys.argv) > 3 and sys.argv[3].startswith("thorough:"):
+    extra = ["--tier", "thorough", "--seconds", sys.argv[3].split(":")[1]]
+props = sys.argv[2].split(",") if len(sys.argv) > 2 and sys.argv[2] != "all" else [c["property_id"] for c in json.load(open(os.path.join(ROOT, "MANIFEST.json")))["checks"]]
 bad = 0
 for p in props:
     for sd in seeds:
         env = dict(os.environ, VERIF_SEED=str(sd))
         env.pop("PYTHONHASHSEED", None)
-        r = subprocess.run(["/venv/bin/python", os.path.join(ROOT, "run_check.py"), p, "--no-evidence"], capture_output=True, text=True, env=env, cwd=ROOT, timeout=1800)
+        r = subprocess.run(["/venv/bin/python", os.path.join(ROOT, "run_check.py"), p, "--no-evidence"] + extra, capture_output=True, text=True, env=env, cwd=ROOT, timeout=3600)
         rules = sorted({l.split("rule=")[1].split()[0] + " " + l.split("cause=")[1][:80] for l in r.stdout.splitlines() if l.strip().startswith("rule=")})
         print(f"{p} seed={sd} exit={r.returncode} {rules if r.returncode else ''}", flush=True)
         bad += r.returncode != 0
